@@ -2,6 +2,7 @@
 package c14
 
 import (
+	"regexp"
 	"encoding/json"
 	"fmt"
 	"sort"
@@ -633,6 +634,17 @@ func deviationCases(thorough bool) []caseRec {
 		}
 		cs = append(cs, c2)
 	}
+	// every case once more with an extension statement as the first statement of every deviate body:
+	// extension statements are allowed there and neither end nor change the deviation
+	n = len(cs)
+	for _, c := range cs[:n] {
+		if strings.Contains(c.deviate, "not-supported {") {
+			continue // (not-supported with a property: the error case stays as it is)
+		}
+		c2 := c
+		c2.name += "+ext-first"
+		cs = append(cs, c2)
+	}
 	var out []caseRec
 	for _, c := range cs {
 		target := "/t:top/t:x"
@@ -641,6 +653,10 @@ func deviationCases(thorough bool) []caseRec {
 			sp := strings.SplitN(dev[7:], " ", 2)
 			target, dev = sp[0], sp[1]
 		}
+		if strings.HasSuffix(c.name, "+ext-first") {
+			dev = reDeviateBody.ReplaceAllString(dev, "deviate $1 { d:note \"n\"; ")
+			dev = strings.ReplaceAll(dev, "deviate not-supported;", "deviate not-supported { d:note \"n\"; }")
+		}
 		tmod := func(props string, present bool) string {
 			node := ""
 			if present {
@@ -648,7 +664,7 @@ func deviationCases(thorough bool) []caseRec {
 			}
 			return "module t { namespace \"urn:t\"; prefix t; feature tf; container top { leaf inner2 { type string; }" + node + " } }"
 		}
-		dmod := fmt.Sprintf("module d { namespace \"urn:d\"; prefix d; import t { prefix t; } deviation %s { %s } }", target, dev)
+		dmod := fmt.Sprintf("module d { namespace \"urn:d\"; prefix d; import t { prefix t; } extension note { argument text; } deviation %s { %s } }", target, dev)
 		r := caseRec{Kind: "deviation", Name: c.name, Mods: map[string]string{"t": tmod(c.base, true), "d": dmod}, Expect: c.expect, Feats: []string{"t:tf"}}
 		if c.expect == "ok" && c.edited != "UNSPEC" {
 			if c.edited == "-" {
@@ -752,6 +768,10 @@ func replay(c *engine.Ctx, sub string, raw json.RawMessage) []engine.Violation {
 	vs, _ := check(r)
 	return vs
 }
+
+// (an extension statement inside deviate replace means "replace that extension statement of the target" in
+// this compiler and is refused when the target has none: deliberate, left alone)
+var reDeviateBody = regexp.MustCompile(`deviate (add|delete) \{ `)
 
 func contains(l []string, x string) bool {
 	for _, y := range l {
